@@ -61,6 +61,60 @@ class F:
         fail(s, 'statement')
 
 
+def magic(ms):
+    """`Fields.__setattr__` / `__getattribute__`: the instance dict (`self.__dict__`, `Py.Fields.ObjDict`) holds the dict of fields under
+    '_fields' and ordinary attributes under their names; `super().__setattr__` / `super().__getattribute__` are `object`'s (instance
+    attributes only).  The statements are matched one by one; anything else is refused."""
+    sa, ga = ms['__setattr__'], ms['__getattribute__']
+    if [a.arg for a in sa.args.args] != ['self', 'name', 'value'] or [a.arg for a in ga.args.args] != ['self', 'name']:
+        fail(sa, 'signatures of __setattr__ / __getattribute__')
+    b = strip(sa.body)
+    if len(b) != 1 or not isinstance(b[0], ast.If):
+        fail(sa, '__setattr__')
+    i = b[0]
+    if ast.unparse(i.test) != "'_fields' in self.__dict__ and name in self.__dict__['_fields']" \
+            or [ast.unparse(x) for x in strip(i.body)] != ["self.__dict__['_fields'][name].value = value"] \
+            or [ast.unparse(x) for x in strip(i.orelse)] != ['return super().__setattr__(name, value)']:
+        fail(i, '__setattr__ is not: field of that name -> its value, otherwise object.__setattr__')
+    out = ('def __setattr__ (self : Py.Fields.ObjDict) (name : String) (value : Int) : Except Ubx.Exc Py.Fields.ObjDict :=\n'
+           '  (if Py.Dict.contains self "_fields" then\n'
+           '     (Py.Dict.getitem self "_fields") >>= fun x1 => (Py.Fields.asFields x1) >>= fun x2 => .ok (Py.Dict.contains x2 name)\n'
+           '   else .ok false) >>= fun c =>\n'
+           '  if c then\n'
+           '    (Py.Dict.getitem self "_fields") >>= fun x1 => (Py.Fields.asFields x1) >>= fun x2 =>\n'
+           '    (Py.Dict.getitem x2 name) >>= fun x3 =>\n'
+           '    let x3 := { x3 with value := value }\n'
+           '    let x2 := Py.Dict.setitem x2 name x3\n'
+           '    let self := Py.Dict.setitem self "_fields" (.fields x2)\n'
+           '    .ok self\n'
+           '  else\n'
+           '    .ok (Py.Fields.objectSetattr self name value)\n\n')
+    g = strip(ga.body)
+    want = ["obj_dict = object.__getattribute__(self, '__dict__')", None, 'return super().__getattribute__(name)']
+    if len(g) != 3 or ast.unparse(g[0]) != want[0] or ast.unparse(g[2]) != want[2] or not isinstance(g[1], ast.If) or g[1].orelse \
+            or ast.unparse(g[1].test) != "'_fields' in obj_dict":
+        fail(ga, '__getattribute__')
+    inner = strip(g[1].body)
+    if len(inner) != 2 or ast.unparse(inner[0]) != "_fields = object.__getattribute__(self, '_fields')" or not isinstance(inner[1], ast.If) \
+            or inner[1].orelse or ast.unparse(inner[1].test) != 'name in _fields' \
+            or [ast.unparse(x) for x in strip(inner[1].body)] != ['value = _fields[name].value', 'return value']:
+        fail(ga, '__getattribute__ is not: field of that name -> its value, otherwise object.__getattribute__')
+    out += ('def __getattribute__ (self : Py.Fields.ObjDict) (name : String) : Except Ubx.Exc Py.Fields.Attr :=\n'
+            '  let obj_dict := self\n'
+            '  (if Py.Dict.contains obj_dict "_fields" then\n'
+            '     (Py.Fields.objectGetattr self "_fields") >>= fun _fields => (Py.Fields.asFields _fields) >>= fun _fields =>\n'
+            '     if Py.Dict.contains _fields name then\n'
+            '       (Py.Dict.getitem _fields name) >>= fun x1 =>\n'
+            '       let value := x1.value\n'
+            '       .ok (some (Py.Fields.Attr.val value))\n'
+            '     else .ok none\n'
+            '   else .ok none) >>= fun r =>\n'
+            '  match r with\n'
+            '  | some v => .ok v\n'
+            '  | none => Py.Fields.objectGetattr self name\n\n')
+    return out
+
+
 HEADER = '''import UbxModel.Model.PyFields
 /-! GENERATED by tools/pysrc2lean_fields.py from `ubxlib/types.py` (`Fields.__init__ / next_ord / add / get`, `Item.__init__`) of the working
     tree of /repo - do not edit.  `Proofs/SrcEquiv/Fields.lean` proves of these definitions what the other translations take as
@@ -99,6 +153,7 @@ def translate(repo):
     out += ('def add (self : Py.Fields.St) (field : Py.Fields.Item) : Except Ubx.Exc Unit × Py.Fields.Item × Py.Fields.St :=\n  '
             + f.block(ms['add'].body, {}, 2, 'add') + '\n\n')
     out += 'def get (self : Py.Fields.St) (field : String) : Except Ubx.Exc Py.Fields.Item :=\n  ' + f.block(ms['get'].body, {}, 2, 'get') + '\n\n'
+    out += magic(ms)
     # the loops of pack / unpack / __str__ iterate over the same expression
     want = 'sorted(self._fields.items(),key=lambdaitem:item[1].order)'
     for name in ('pack', 'unpack'):
